@@ -29,6 +29,12 @@ def method_segments(an, cm, roles, m, res=None):
                        'caches in %s reached from %s::%s' % (note[0], show_site(note[1]), cm.name, m.key()))
                 if msg not in res.incomplete:
                     res.incomplete.append(msg)
+        note = counted_effect_loop(keep)
+        if note is not None:
+            msg = ('G-UNKNOWN a loop that changes the container is limited by a local count (%s): how often it runs is not modelled '
+                   'in %s reached from %s::%s' % (note[0], show_site(note[1]), cm.name, m.key()))
+            if msg not in res.incomplete:
+                res.incomplete.append(msg)
         note = local_key_copy(keep)
         if note is not None:
             msg = ('G-UNKNOWN the keys are looked up from a local copy of the caller\'s range (%s) and the answers are stitched to them '
@@ -48,6 +54,31 @@ def method_segments(an, cm, roles, m, res=None):
             if msg not in res.incomplete:
                 res.incomplete.append(msg)
     return keep
+
+
+def counted_effect_loop(tops):
+    """(condition, site) of a loop iteration that changes container state and is admitted by comparing a loop-carried local integer
+    with a bound (`while (expired < limit && ...) { erase...; ++expired; }`) - unless a recognised counting idiom already gave the
+    comparison a meaning (countdown / scan-bound guards are rewritten before this point)"""
+    for top in tops:
+        for seg in top.all_segments():
+            if seg.loop is None or not seg.state_effects():
+                continue
+            for c in seg.conds:
+                raw = c[4]
+                if c[0] != 'OTHER' or not (isinstance(raw, tuple) and len(raw) == 4 and raw[0] == 'cmp' and raw[1] in ('<', '<=', '>', '>=')):
+                    continue
+                # (a walk over the caller's range by index / iterator is not meant: the loop must also be steered by the container's
+                # own state - "while fewer than `limit` done AND the head is expired")
+                if not any(d[0] in ('EXPIRED', 'EXPIRED_STRICT', 'NONEMPTY', 'AUX_NONEMPTY', 'AT_PART', 'FULL', 'AGED', 'AGED_INCL') for d in seg.conds):
+                    continue
+                for a, b in ((raw[2], raw[3]), (raw[3], raw[2])):
+                    if isinstance(a, tuple) and a[:1] == ('lv',) and len(a) > 2 and a[2] == seg.loop.id and \
+                            isinstance(b, tuple) and b[:1] in (('int',), ('p',)):
+                        steps = [e for e in seg.effects if e.kind == 'LOCAL' and isinstance(e.loc, tuple) and len(e.loc) > 1 and e.loc[1] == a[1]]
+                        if steps:
+                            return show(raw), c[3]
+    return None
 
 
 def local_key_copy(tops):
